@@ -54,7 +54,7 @@ func (p *SyncSourcePool) Pick() (NodeConnInfo, func(error), error) {
 	p.l.Lock()
 	defer p.l.Unlock()
 
-	_, nci, report, err := p.pick("")
+	_, nci, report, err := p.pick("", nil)
 
 	return nci, report, err
 }
@@ -72,23 +72,28 @@ func (p *SyncSourcePool) PickMultiple(n int) ([]NodeConnInfo, []func(error), err
 
 	var last string
 
-	switch i, nci, report, err := p.pick(""); {
+	picked := map[string]struct{}{}
+
+	switch i, nci, report, err := p.pick("", nil); {
 	case err != nil:
 		return nil, nil, err
 	case n == 1:
 		return []NodeConnInfo{nci}, []func(error){report}, nil
 	default:
 		last = i
+		picked[i] = struct{}{}
 
 		_ = addNcis(nci)
 		_ = addReports(report)
 	}
 
 	for {
-		id, nci, report, err := p.pick(last)
+		id, nci, report, err := p.pick(last, picked)
 		if err != nil || nci == nil {
 			break
 		}
+
+		picked[id] = struct{}{}
 
 		_ = addNcis(nci)
 
@@ -324,7 +329,9 @@ func (*SyncSourcePool) makeid(nci NodeConnInfo) string {
 	return nci.Address().String() + "-" + nci.String()
 }
 
-func (p *SyncSourcePool) pick(skipid string) (_ string, _ NodeConnInfo, report func(error), _ error) {
+func (p *SyncSourcePool) pick(
+	skipid string, picked map[string]struct{},
+) (_ string, _ NodeConnInfo, report func(error), _ error) {
 	foundid := len(skipid) < 1
 
 	for i := range p.fixedids {
@@ -345,6 +352,10 @@ func (p *SyncSourcePool) pick(skipid string) (_ string, _ NodeConnInfo, report f
 	}
 
 	for id := range p.nonfixed {
+		if _, found := picked[id]; found {
+			continue
+		}
+
 		switch {
 		case skipid == id, p.problems.Exists(id):
 			continue
